@@ -503,6 +503,16 @@ def lookOne (names : Names) : Option Nat → Except Err (Option String)
 /-- `[names[i] if i is not None else None for i in idx_to_take]` -/
 def lookNames (names : Names) (t : List (Option Nat)) : Except Err Names := t.mapM (lookOne names)
 
+/-- `_get_names_idx`, general branch: `if len([non-None items]) < ndim: idx = (*idx, Ellipsis)` -/
+def namesItems (items : List Ix) (bsLen : Nat) : List Ix :=
+  if (items.filter (· ≠ Ix.none)).length < bsLen then items ++ [Ix.ell] else items
+
+/-- `_get_names_idx`, general branch: convert the Ellipsis, build `idx_to_take`, look the names up -/
+def namesTake (names : Names) (bsLen : Nat) (items : List Ix) : Except Err Names :=
+  match convertEllipsis (.tuple (namesItems items bsLen)) bsLen with
+  | .error e => .error e
+  | .ok conv => lookNames names (namesLoop conv.items { take := [], count := 0, noMore := false }).take
+
 /-- mirrors tensordict/base.py:_get_names_idx; `.error` = the lookups `names[i]` ran out of range -/
 def namesIdx (names : Option Names) (bsLen : Nat) (idx : PyIndex) : Except Err (Option Names) :=
   match names with
@@ -511,14 +521,7 @@ def namesIdx (names : Option Names) (bsLen : Nat) (idx : PyIndex) : Except Err (
     let res : Except Err Names :=
       match isBoolean idx with
       | some (k + 1) => .ok (none :: names.drop (k + 1))
-      | _ =>
-        let items := idx.items
-        let items := if (items.filter (· ≠ .none)).length < bsLen then items ++ [.ell] else items
-        match convertEllipsis (.tuple items) bsLen with
-        | .error e => .error e
-        | .ok conv =>
-          let st := namesLoop conv.items { take := [], count := 0, noMore := false }
-          lookNames names st.take
+      | _ => namesTake names bsLen idx.items
     match res with
     | .error e => .error e
     | .ok l => if l.all (· == none) then .ok none else .ok (some l)
